@@ -1,11 +1,44 @@
 /-
   C19, the rest of src/weekday_set.rs: the constants `EMPTY` / `ALL` (re-extracted), `from_array`,
-  `FromIterator::from_iter`, `ExactSizeIterator::len` of the iterator, `Display` and `Debug`.
+  `FromIterator::from_iter`, `ExactSizeIterator::len` of the iterator, `Display` and `Debug`;
+  `Display for Weekday` under format flags (`Formatter::pad`).
 -/
 import Chrono.Model.Weekday
 import Chrono.Extracted.WdConv
 
 namespace Chrono.M
+
+/-- alignment flag of a format spec; none written = `left` for `Formatter::pad` -/
+inductive Align where
+  | left | right | center
+  deriving DecidableEq, Repr
+
+/-- the precision of a format spec cuts a string to that many characters -/
+def fmtCut (s : List Nat) : Option Nat → List Nat
+  | some p => s.take p
+  | none => s
+
+/-- the width fills up (one-byte fill) on the side(s) the alignment says -/
+def fmtFill (t : List Nat) (width : Option Nat) (align : Align) (fill : Nat) : List Nat :=
+  match width with
+  | none => t
+  | some w =>
+    if t.length < w then
+      match align with
+      | .left => t ++ List.replicate (w - t.length) fill
+      | .right => List.replicate (w - t.length) fill ++ t
+      | .center => List.replicate ((w - t.length) / 2) fill ++ t ++ List.replicate ((w - t.length + 1) / 2) fill
+    else t
+
+/-- `core::fmt::Formatter::pad` on an ASCII string: without width and precision the string itself;
+the precision cuts, then the width fills up -/
+def fmtPad (s : List Nat) (width prec : Option Nat) (align : Align) (fill : Nat) : List Nat :=
+  fmtFill (fmtCut s prec) width align fill
+
+/-- `Display for Weekday` under `{:fill align width .prec}`: `f.pad(name)` -/
+def Weekday.display_fmt (w : Weekday) (width prec : Option Nat) (align : Align) (fill : Nat) : List Nat :=
+  fmtPad w.display width prec align fill
+
 namespace WeekdaySet
 
 /-- `WeekdaySet::EMPTY` / `ALL`: the words the source declares -/
